@@ -190,7 +190,7 @@ def unit_buffer_position(sess, ctx):
                 eng.prove("C11:position-reads-back-consumed-samples", I(r) == v.pos if is_int(r) else False, props=P11)
             elif op == "get_s":
                 r = eng.run_function(ctx.fi(QI + "Rewindable.position_s"), [], {}, me)
-                eng.prove("C11:position_s-is-consumed/rate", (r.t * R(v.sr) == R(v.pos)) if isinstance(r, Fl) else False, props=P11)
+                eng.prove("C11:position_s-is-consumed/rate", (r.t == eng.spec_div(v.pos, v.sr)) if isinstance(r, Fl) else False, props=P11)
             elif op == "get_ms":
                 r = eng.run_function(ctx.fi(QB + "position_ms"), [], {}, me)
                 eng.prove("C11:position_ms-is-floor(consumed*1000/rate)",
@@ -203,7 +203,7 @@ def unit_buffer_position(sess, ctx):
                 elif op == "set_s":
                     k = eng.choose(2, None, "seconds as float/int")
                     arg = Fl(Real("t")) if k == 0 else Int("t")
-                    p = r_trunc(R(v.sr) * R(arg))
+                    p = r_trunc(eng.spec_mul(v.sr, arg))
                     fn = QI + "Rewindable.position_s.setter"
                 else:
                     k = eng.choose(2, None, "ms int / not int")
@@ -216,7 +216,7 @@ def unit_buffer_position(sess, ctx):
                         eng.prove("C11:position_ms-setter:non-int-raises-ValueError", False, props=P11)
                         return None
                     arg = Int("ms")
-                    p = r_trunc(R(v.sr) * R(arg) / 1000)
+                    p = r_trunc(eng.spec_div(imul(v.sr, arg), 1000))
                     fn = QB + "position_ms.setter"
                 inr, newpos = setter_spec(p, op)
                 imul(p, v.bps)
